@@ -796,6 +796,11 @@ func (state *RuntimeState) getUsernameIfKeymasterSigned(VerifiedChains [][]*x509
 		if len(chain) < 2 {
 			continue
 		}
+		// IP restricted certs are only valid from their netblocks, that is
+		// evaluated in getUsernameIfIPRestricted
+		if certgen.IsIPRestrictedX509Cert(chain[0]) {
+			continue
+		}
 		username := chain[0].Subject.CommonName
 		//keymaster certs as signed directly
 		certSignerPKFingerprint, err := getKeyFingerprint(chain[1].PublicKey)
